@@ -189,6 +189,12 @@ def run(tier, seed, replay):
                 if pol == "white":
                     for c in range(ncl):
                         lines.append("sop vis %d %d 1" % (c, e))
+            bare = rng.random() < 0.5
+            if bare:
+                lines.append("sop spawn 3 1")               # an entity without any replicated component
+                if pol == "white":
+                    for c in range(ncl):
+                        lines.append("sop vis %d 3 1" % c)
             lines.append("sframe 1 16")
             for c in range(ncl):
                 lines += ["deliver %d s2c 0 all" % c, "cframe %d" % c, "deliver %d c2s 0 all" % c]
@@ -206,6 +212,12 @@ def run(tier, seed, replay):
                 for _ in range(rng.randrange(1, 3)):
                     lines.append("sframe 1 16")
                 lines += ["sop vis 0 %d 1" % e, "sframe 1 16", "deliver 0 s2c 0 all", "deliver 0 s2c 1 all", "cframe 0", "deliver 0 c2s 0 all"]
+            if bare:
+                # the component-less entity is hidden for a tick or two and shown again: it must come back
+                lines += ["sop vis 0 3 0", "sframe 1 16", "deliver 0 s2c 0 all", "cframe 0", "deliver 0 c2s 0 all"]
+                if rng.random() < 0.5:
+                    lines.append("sframe 1 16")
+                lines += ["sop vis 0 3 1", "sframe 1 16", "deliver 0 s2c 0 all", "cframe 0", "deliver 0 c2s 0 all"]
             meta = dict(connected=list(range(ncl)), events=False)
             sf = len(lines)
             lines += gen_scripts.settle_lines(meta)
